@@ -6,6 +6,8 @@
      Subst(h, s, x)  x itself where h is IDENTIFIER(s); h itself for other leaves; otherwise a shallow clone whose children
                      are the substituted children (unchanged subtrees stay shared with the original)
      SetChild(h,i,x) h[i] = x : assignment through the non-const accessor, visible to every handle that reaches the node
+     Child(h, i)     a further handle on the i-th child node (what the const accessors hand out): later changes through it are
+                     changes at depth >= 2 of every tree that contains the node
    Laws (invariants / step properties): a deep clone is structurally equal and shares no node; a mutation is visible exactly
    to the handles that reach the mutated node (so never to a deep clone made before); Subst builds the tree in which exactly
    the IDENTIFIER(s) leaves are replaced, leaves the receiver's tree unchanged, and is the identity for x = IDENTIFIER(s);
@@ -13,7 +15,7 @@
    Arity: the number of children of a node is the size of sub.  The explored behaviours are exported for replay.       *)
 EXTENDS Integers, Sequences, FiniteSets, TLC, Json, SequencesExt
 
-CONSTANTS MaxOps, MaxNodes
+CONSTANTS MaxOps, MaxNodes, MaxHandles
 Syms == {"i", "z"}
 N(k, v, s, sub) == [k |-> k, v |-> v, s |-> s, sub |-> sub]
 
@@ -72,7 +74,12 @@ SetChildA == Len(hist) < MaxOps /\ \E h \in 1..Len(hs), x \in 1..Len(hs) :
             /\ \E i \in 1..Len(heap[hs[h]].sub) :
                  /\ heap' = [heap EXCEPT ![hs[h]].sub[i] = hs[x]] /\ hs' = hs /\ hist' = Append(hist, [op |-> "set_child", h |-> h, i |-> i, x |-> x, s |-> ""])
                  /\ ok' = (ok /\ \A g \in 1..Len(hs) : hs[h] \notin Reach(heap, hs[g]) => Tree(heap', hs[g]) = Tree(heap, hs[g]))   \* invisible to whoever does not reach the node
-Next == (CloneA \/ DeepA \/ SubstA \/ SetChildA) /\ UNCHANGED h0
+ChildA == Len(hist) < MaxOps /\ Len(hs) < MaxHandles /\ \E h \in 1..Len(hs) :
+            /\ heap[hs[h]].sub # <<>>
+            /\ \E i \in 1..Len(heap[hs[h]].sub) :
+                 /\ heap' = heap /\ hs' = Append(hs, heap[hs[h]].sub[i]) /\ hist' = Append(hist, [op |-> "child", h |-> h, i |-> i, x |-> 0, s |-> ""])
+                 /\ ok' = (ok /\ Tree(heap, heap[hs[h]].sub[i]) = Tree(heap, hs[h]).c[i])
+Next == (CloneA \/ DeepA \/ SubstA \/ SetChildA \/ ChildA) /\ UNCHANGED h0
 Spec == Init /\ [][Next]_vars
 
 Laws == ok
@@ -81,5 +88,6 @@ ArityIsSub == \A n \in 1..Len(heap) : Len(Tree(heap, n).c) = Len(heap[n].sub)
 (* sharing matrix and trees, for replay *)
 Share(g, h) == Reach(heap, hs[g]) \cap Reach(heap, hs[h]) # {}
 EmitState == Len(hist) = MaxOps => PrintT(<<"EMIT", ToJson([heap0 |-> h0, ops |-> hist, trees |-> [h \in 1..Len(hs) |-> Tree(heap, hs[h])],
-                                                             share |-> [g \in 1..Len(hs) |-> [h \in 1..Len(hs) |-> Share(g, h)]]])>>)
+                                                             share |-> [g \in 1..Len(hs) |-> [h \in 1..Len(hs) |-> Share(g, h)]],
+                                                             eq |-> [g \in 1..Len(hs) |-> [h \in 1..Len(hs) |-> Tree(heap, hs[g]) = Tree(heap, hs[h])]]])>>)
 =============================================================================
